@@ -1,0 +1,25 @@
+//go:build !verif
+
+package simpledb
+
+import (
+	"github.com/thomasjungblut/go-sstables/memstore"
+	"github.com/thomasjungblut/go-sstables/simpledb/proto"
+	"github.com/thomasjungblut/go-sstables/sstables"
+)
+
+// no-op twins of the verification hooks in verif_on.go (build tag "verif")
+
+func verifPut(key, value []byte)                                                          {}
+func verifDel(key []byte)                                                                 {}
+func verifGate(point string)                                                              {}
+func verifWalRotated(walPath string)                                                      {}
+func verifSwap(store memstore.MemStoreI)                                                  {}
+func verifHandoff()                                                                       {}
+func verifFlush(stage string, store memstore.MemStoreI, path string)                      {}
+func verifInstall(s *SSTableManager, reader sstables.SSTableReaderI)                      {}
+func verifCandidates(s *SSTableManager, maxSize uint64, ratio float32, selected []string) {}
+func verifSelect(db *DB, action compactionAction)                                         {}
+func verifMerged(m *proto.CompactionMetadata)                                             {}
+func verifReflect(stage string, s *SSTableManager, m *proto.CompactionMetadata)           {}
+func verifPhase(db *DB, phase string)                                                     {}
